@@ -106,6 +106,26 @@ fn gen_vectors() -> Result<String, String> {
     }
     Ok(out)
 }
+// recovery seeds with special values (zero, one, minus one) are seeds like any other
+fn fam_fixed_seeds(tag: &str, out: &mut Vec<Case>) {
+    let id = format!("{}:modes:special-seeds", tag);
+    out.push((id, Box::new(move || {
+        let mut rng = rng_for("special-seeds");
+        for sd in [Scalar::ZERO, Scalar::ONE, -Scalar::ONE] {
+            let (st0, witness, first_r) = make_statement(&mut rng, 8, 1, 2, 2, false, None)?;
+            let statement = RangeStatement::init(st0.generators.clone(), st0.commitments.clone(), st0.minimum_value_promises.clone(), Some(sd)).map_err(|e| format!("{:?}", e))?;
+            let proof = o_prove(&mut Transcript::new(b"ctx"), &statement, &witness, &mut rng).map_err(|e| format!("the prover refused a statement whose recovery seed is {:?}: {:?}", sd.to_bytes()[0], e))?;
+            let mem = Member { statement, proof, blindings: first_r, seeded: true };
+            let other = make_member(&mut rng, 8, 1, 2, 2, false, None, b"ctx")?;
+            for action in [VerifyAction::VerifyOnly, VerifyAction::RecoverAndVerify, VerifyAction::RecoverOnly] {
+                let batch = [other.clone(), mem.clone()];
+                let res = verify(&batch, action, b"ctx").map_err(|e| format!("proof under a recovery seed with first byte {} rejected ({:?}): {}", sd.to_bytes()[0], action, e))?;
+                check_masks(&batch, &res, action != VerifyAction::VerifyOnly)?;
+            }
+        }
+        Ok(())
+    })));
+}
 fn fam_vectors(tag: &str, out: &mut Vec<Case>) {
     let id = format!("{}:vectors", tag);
     out.push((id, Box::new(move || {
@@ -1008,8 +1028,8 @@ fn families(prop: &str) -> Vec<Case> {
         "C02" | "C04" | "C05" => { fam_binding(prop, &mut v); fam_batch(prop, &mut v); if prop == "C05" { fam_panics(prop, &mut v); fam_codec(prop, &mut v); } if prop == "C02" { fam_modes(prop, &mut v); } fam_completeness(prop, &mut v); }
         "C03" | "C08" => { fam_batch(prop, &mut v); }
         "C06" | "C07" => { fam_prover(prop, &mut v); if prop == "C07" { fam_binding(prop, &mut v); fam_batch(prop, &mut v); } }
-        "C09" | "C10" => { fam_modes(prop, &mut v); fam_completeness(prop, &mut v); fam_batch(prop, &mut v); }
-        "C13" | "C14" => { fam_nonces(prop, &mut v); fam_alpha(prop, &mut v); }
+        "C09" | "C10" => { fam_modes(prop, &mut v); fam_completeness(prop, &mut v); fam_batch(prop, &mut v); fam_vectors(prop, &mut v); fam_fixed_seeds(prop, &mut v); }
+        "C13" | "C14" => { fam_nonces(prop, &mut v); fam_alpha(prop, &mut v); if prop == "C13" { fam_vectors(prop, &mut v); } }
         "C11" => { fam_gens(prop, &mut v); }
         "C15" => { fam_codec(prop, &mut v); }
         "C16" => { fam_panics(prop, &mut v); fam_codec(prop, &mut v); fam_batch(prop, &mut v); }
